@@ -86,7 +86,16 @@ def exhaustive_small():
 
 
 def random_cnf(r, nv, nc, maxlen=3, dup=True):
-    names = ['v%d' % i for i in range(nv)]
+    # naming schemes: plain, and names that contain one another (x, x1, x10, ... / a, ab, abc, ...)
+    scheme = r.choice(['plain', 'nested', 'nested', 'prefix'])
+    if scheme == 'plain':
+        names = ['v%d' % i for i in range(nv)]
+    elif scheme == 'nested':
+        pool = ['x', 'x1', 'x10', 'x100', 'x11', 'x101', 'x1000', 'y', 'y1', 'xy', 'x1y', 'y10']
+        names = pool[:nv] if nv <= len(pool) else pool + ['w%d' % i for i in range(nv - len(pool))]
+    else:
+        pool = ['a', 'ab', 'abc', 'b', 'bc', 'c', 'abcd', 'ba', 'cab', 'aa', 'aaa', 'bb']
+        names = pool[:nv] if nv <= len(pool) else pool + ['w%d' % i for i in range(nv - len(pool))]
     f = []
     for _ in range(nc):
         ln = r.choice([1, 2, 2, 3, 3, 3][:max(1, maxlen * 2)]) if r.random() > 0.03 else 0
